@@ -190,6 +190,10 @@ func runC02(c *core.Ctx) {
 	c.Rule("R7", "the sender's batch capacity is at least 1 whenever the queue exists (otherwise the drain loop never dequeues and spins)", 1)
 	runBatchCapacity(c, e, "R7")
 
+	// ---- R9 the started sender really runs
+	c.Rule("R9", "every Executor of the library starts its action on another goroutine on every path (shared with C18-R10)", 1)
+	ruleExecutorsAreAsync(c, e, "R9")
+
 	// ---- R8 one release per ownership
 	c.Rule("R8", "the sender releases the flag once per ownership and never after handing the flag to a newly started sender", 1)
 	runReleaseOnce(c, e, "R8")
